@@ -400,7 +400,7 @@ theorem expand_canon (l : Loc) (i n M : Int) (hc : canonP l = true) (hi : 0 ≤ 
     (hom_struct h l hc.2 hk).1⟩
 
 /-- **`Shift(i, n)`, `0 ≤ n`, keeps a canonical location canonical** unless the K3 shape arises -/
-theorem shift_canon (l : Loc) (i n M : Int) (hc : canonP l = true) (hn : 0 ≤ n)
+theorem shift_canon_guarded (l : Loc) (i n M : Int) (hc : canonP l = true) (hn : 0 ≤ n)
     (hle : coordsLe M l = true) (hM : M + n ≤ 4611686018427387904) (hk : shiftK3 l i n = false) :
     canonP (shift l i n) = true := by
   rw [canonP_iff] at hc ⊢
@@ -431,6 +431,36 @@ theorem normalize_canon (l : Loc) (L : Int) (hc : canonP l = true) (hL0 : 0 < L)
   exact ⟨hom_coords h.perm h.joined h.ordered h.compl _ _
       (fun u hu hq => normalize_leaf_coords L hL0 hL u hu hq) l hc.1,
     (hom_struct h l hc.2 hk).1⟩
+
+theorem leafWithin_iff' (L : Int) (u : Loc) :
+    leafWithin L u = true ↔
+      0 ≤ (leafSpan u).1 ∧ (leafSpan u).2 ≤ L ∧ (leafSpan u).1 ≤ (leafSpan u).2 := by
+  simp only [leafWithin, Bool.not_eq_true', Bool.or_eq_false_iff, decide_eq_false_iff_not]
+  omega
+
+theorem coordsLe_of_within (l : Loc) (L : Int) (h : coordsWithin l L = true) : coordsLe L l = true := by
+  unfold coordsWithin at h
+  unfold coordsLe
+  rw [List.all_eq_true] at *
+  intro u hu
+  have := (leafWithin_iff' L u).mp (h u hu)
+  cases u <;> simp only [leafSpan, leafLe, Bool.and_eq_true, decide_eq_true_eq] at * <;> omega
+
+theorem revIn_of_within (l : Loc) (L : Int) (h : coordsWithin l L = true)
+    (hb : (leaves l).all (fun u => !u.beq (between L)) = true) : revIn L l = true := by
+  unfold coordsWithin at h
+  unfold revIn
+  rw [List.all_eq_true] at *
+  intro u hu
+  have := (leafWithin_iff' L u).mp (h u hu)
+  have hne := hb u hu
+  cases u <;> simp only [leafSpan, leafRevIn, Bool.and_eq_true, decide_eq_true_eq] at * <;> try omega
+  rename_i p
+  have : p ≠ L := by
+    intro he
+    subst he
+    simp [beq] at hne
+  omega
 
 end Loc
 end Gts
